@@ -17,7 +17,7 @@ import isa
 import jitmodel
 import terms as T
 import x86model as X
-from common import Ctx
+from common import Ctx, is_inner_vm
 
 CALL = next(v for v, d in isa.TABLE.items() if d["kind"] == "call")
 IMM = ("v", "imm", 32)
@@ -119,7 +119,7 @@ def register_rules(rep, cx):
                 ok = len(ins) == 1 and "helpers" in repr(ins[0][2][0]) and list(ins[0][2][1:3]) == args and not dele
                 found = "insert(%s, %s)" % tuple("argument" if x == a else repr(x)[:50] for x, a in zip(ins[0][2][1:3], args))
             else:
-                ok = len(dele) == 1 and "'parent'" in repr(dele[0][2][0]) and list(dele[0][2][1:3]) == args
+                ok = len(dele) == 1 and is_inner_vm(dele[0][2][0]) and list(dele[0][2][1:3]) == args
                 found = "delegates" if ok else "delegates with other arguments"
             ok = ok and c10.result_kind(outs[0][0]) in ("Ok", "?")
         rep.ob(rr, path, ok, path, expected="helpers.insert(key, function), or delegation with both arguments", found=found)
